@@ -6,12 +6,15 @@ set -u
 patch=$1; shift; [ "$patch" != pinned ] && patch=$(realpath "$patch")
 wt=/var/tmp/gcverif-mut-$$
 rev=HEAD
-[ "$patch" = pinned ] && rev=pinned-base
+if [ "$patch" = pinned ]; then
+  # tags do not survive a sandbox restore: the pre-repair tree is the root commit of /repo
+  rev=$(git -C /repo rev-parse -q --verify pinned-base^{commit} || git -C /repo rev-list --max-parents=0 HEAD | tail -1)
+fi
 git -C /repo worktree add -f --detach "$wt" $rev >/dev/null 2>&1 || { echo "cannot create worktree"; exit 2; }
 trap 'git -C /repo worktree remove --force "$wt" >/dev/null 2>&1; rm -rf "$wt"' EXIT
 if [ "$patch" = pinned ]; then
   # the pinned tree lacks the verif hooks: bring them over (add-only commits)
-  for c in $(git -C /repo log --reverse --format=%h --grep='^verif hook' pinned-base..HEAD); do
+  for c in $(git -C /repo log --reverse --format=%h --grep='^verif hook' $rev..HEAD); do
     git -C "$wt" cherry-pick -n $c >/dev/null 2>&1 || { echo "hook $c does not apply to pinned"; }
   done
 else
